@@ -48,7 +48,23 @@ def run_sequence(ch, stack, dn, seq, menu, trunc="quick", cfg=None, between=None
     return net, obj, rec
 
 
-def judge(ch, net, obj, rec, stack, dn, seq, check_values=True):
+_BASELINES = {}
+
+
+def baseline_kinds(stack, dn, seq, cfg, delivery):
+    """Result kind of each call of the sequence in a faultless environment (cached per process)."""
+    key = (stack, dn, tuple(o.label for o in seq), repr(sorted((cfg or {}).items())), delivery)
+    b = _BASELINES.get(key)
+    if b is None:
+        net, obj, rec = run_sequence(None, stack, dn, seq, {}, cfg=cfg, delivery=delivery)
+        b = [(r["kind"], type(r["value"]).__name__) for r in rec]
+        if len(_BASELINES) > 20000:
+            _BASELINES.clear()
+        _BASELINES[key] = b
+    return b
+
+
+def judge(ch, net, obj, rec, stack, dn, seq, check_values=True, base=None):
     """Yields (clause, call_index, text) for every oracle clause violated in this execution."""
     out = []
     # (i) every byte read during call n answers call n
@@ -106,6 +122,12 @@ def judge(ch, net, obj, rec, stack, dn, seq, check_values=True):
                             out.append(("wrong-value", i,
                                         f"call {i} ({op.label}) returned {short(got)}, the server's own "
                                         f"outcomes {short(outcomes)} mean {short(exp if not isinstance(exp, _ops.Unknown) else exp.typ)}"))
+            # (v) a call during which nothing went wrong does not fail because of an earlier call's fate
+            if base is not None and not mine and r["kind"] == "exc" and base[i - 1][0] == "ret" \
+                    and not (hard_before and stack.startswith("hash")):
+                out.append(("fails-without-fault", i,
+                            f"call {i} ({seq[i-1].label}) raised {r['value']!r} although nothing went wrong during it "
+                            f"(it succeeds in a faultless run); earlier deviations: {devsig(ch)}"))
             if hard:
                 hard_before = True
     return out
